@@ -27,7 +27,7 @@ REQUIRED_COUNTERS = {"asked_from_descendant": {"quick": 100, "thorough": 1000},
                      "asked_from_self": {"quick": 50, "thorough": 500},
                      "lifecycle_cases": {"quick": 10, "thorough": 30},
                      "frameless_parent_cases": {"quick": 6, "thorough": 6},
-                     "greenback_extractions": {"quick": 40, "thorough": 160},
+                     "greenback_extractions": {"quick": 80, "thorough": 320},
                      "portal_with_portal_run_sync": {"quick": 5, "thorough": 20},
                      "greenback_resumed_by_throw": {"quick": 5, "thorough": 7}}
 SHARD_TIMEOUT = {"quick": 400, "thorough": 3600}
@@ -323,9 +323,11 @@ def worker(spec):
         log.append(sys._getframe(0))
         task = trio.lowlevel.current_task()
         results["inside"] = stackscope.extract(task.coro)
+        results["inside-nocontexts"] = stackscope.extract(task.coro, with_contexts=False)
 
         def report():
             results["outside"] = stackscope.extract(task.coro)
+            results["outside-nocontexts"] = stackscope.extract(task.coro, with_contexts=False)
             trio.lowlevel.reschedule(task)
 
         trio.lowlevel.current_trio_token().run_sync_soon(report)
@@ -358,7 +360,7 @@ def worker(spec):
         results.clear()
         trio.run(main, depth, portal)
         res.count("portal_" + portal)
-        for where in ("inside", "outside"):
+        for where in ("inside", "outside", "inside-nocontexts", "outside-nocontexts"):
             s = results[where]
             res.evaluations += 1
             res.count("greenback_extractions")
